@@ -22,7 +22,7 @@ PROPS = {
 PROPS["C09"] = dict(
     level="exploration",
     technique="property-based testing (rapid) over generated (store, pod table) pairs with classes computed independently of the code; harness-owned schedule for GC-vs-request (request parked inside the service while gcPods starts)",
-    rule="TestVerifC09GC: 1..8 (thorough 14) stored records, each pod in a class {running, sandbox exited, missing from the local list but existing, API lookup failing, absent, absent with sticky IP} x {interface on host, interface no longer attached} x {legacy record}; store insertion order permuted; 1..3 GC passes, optionally with a request parked mid-flight; non-trivial = at least one collectable and one must-survive record, or a record whose interface is missing together with another collectable one. TestVerifC09Kernel: 2..5 pods whose namespace and name are drawn from {a,b,c} (mirrored pairs are common), each with the host-side veth and policy rules the plugin leaves after ADD, in a private network namespace; non-trivial = a mirrored namespace/name pair exists. TestVerifC09Runtime (ipam type crd): 0..6 NodeRuntime entries x {initial, deleted, initial-then-deleted, deleted-then-initial} x {fresh, older than the grace period} x pod {exists, gone, API lookup fails} x {local record, none} x {malformed pod id}; non-trivial = some entries must be reported and some must not, or the record database is empty. TestVerifC09Loop: the real startGarbageCollectionLoop (period scaled to 2 ms through the build overlay) over 1..3 vanished and 0..2 running pods while the first 0..3 passes (and optionally a later one) cannot read the pod list; non-trivial = at least one failing pass. TestVerifC09PodExist (real pkg/k8s object over a fake API server whose resourceVersion=0 reads come from a lagging snapshot): 2..14 (thorough 30) steps of pod create / delete / recreate / move to another node / cache catch-up / PodExist / GetLocalPods; (pods may carry the ignore-by-terway label, put on or taken off while they run); non-trivial = a PodExist query while cache and store disagree about that pod, or for a labelled pod. TestVerifC09Starve: 1..5 vanished pods, 0..2 running ones and one vanished pod whose release fails on EVERY pass, sorting before / between / after the others; all others must be collected within 40 passes. distinct = distinct scenario hash",
+    rule="TestVerifC09GC: 1..8 (thorough 14) stored records, each pod in a class {running, sandbox exited, missing from the local list but existing, API lookup failing, absent, absent with sticky IP} x {interface on host, interface no longer attached} x {legacy record}; store insertion order permuted; 1..3 GC passes, optionally with a request parked mid-flight; non-trivial = at least one collectable and one must-survive record, or a record whose interface is missing together with another collectable one. TestVerifC09Kernel: 2..5 pods whose namespace and name are drawn from {a,b,c} (mirrored pairs are common), each with the host-side veth and policy rules the plugin leaves after ADD, in a private network namespace; non-trivial = a mirrored namespace/name pair exists. TestVerifC09Runtime (ipam type crd): 0..6 NodeRuntime entries x {initial, deleted, initial-then-deleted, deleted-then-initial} x {fresh, older than the grace period} x pod {exists, gone, API lookup fails} x {local record, none} x {malformed pod id}; non-trivial = some entries must be reported and some must not, or the record database is empty. TestVerifC09Loop: the real startGarbageCollectionLoop (period scaled to 2 ms through the build overlay) over 1..3 vanished and 0..2 running pods while the first 0..3 passes (and optionally a later one) cannot read the pod list; non-trivial = at least one failing pass. TestVerifC09PodExist (real pkg/k8s object over a fake API server whose resourceVersion=0 reads come from a lagging snapshot): 2..14 (thorough 30) steps of pod create / delete / recreate / move to another node / cache catch-up / PodExist / GetLocalPods; (pods may carry the ignore-by-terway label, put on or taken off while they run); non-trivial = a PodExist query while cache and store disagree about that pod, or for a labelled pod. TestVerifC09Starve: 1..5 vanished pods, 0..2 running ones and one vanished pod whose release fails on EVERY pass, sorting before / between / after the others; all others must be collected within 600 passes (the unchanged code reaches a record behind the failing one only when the random rotation of the map order starts there). distinct = distinct scenario hash",
     assumptions=_assume + ["'interface present on the host' is modelled by the loopback device of a private network namespace (the only netlink.Device available), 'no longer attached' by a MAC no host device carries"],
     level_text="expected survivor set is computed from the pod table alone and compared after every pass: collected within one pass (two for sticky IPs), survivors byte-identical and still owned, third pass idempotent, nothing moves while a request is in flight; kernel state (veth, policy rules) of every pod that must survive is intact after every pass; in crd mode exactly the entries of verified-gone, record-less pods with an old 'initial' status carry a teardown report after one pass and every other entry is unchanged; the loop keeps running after failed passes and collects within two good passes; PodExist answers from the authoritative store, never from the lagging cache",
     level_note="storage write failures are not injected (outside the quantifier)",
